@@ -18,6 +18,10 @@ T0 = 1_600_000_000 * 10**9           # model time 0 as UnixNano
 GRACE_NS = 10 * 10**9                # expireSessionsInterval
 DEFAULT_EXP_NS = 600 * 10**9         # "exp == 0 -> 10 min" in FSM.Snapshot
 
+# the production default of -robustirc_message_offset: message ids (and so session ids) are offset + raft index.
+# Schedules, projections and the model use raft indices; harness/fsm converts (schedule field "offset").
+PROD_OFFSET = 4648398125000000000
+
 # robust.Type
 T_CREATE, T_DELETE, T_LINE, T_MOD, T_CONFIG = 0, 1, 2, 5, 6
 RAFT_TYPES = [1, 4, 5]               # LogNoop, LogBarrier, LogConfiguration
@@ -91,7 +95,7 @@ def concrete_entry(i, e, st):
     raise ValueError(c)
 
 
-def concretize(hist, prelude, name, proto=True, rng=None, final_probe=True):
+def concretize(hist, prelude, name, proto=True, rng=None, final_probe=True, offset=0):
     """A behaviour of FSM.tla (list of hist records) -> (schedule for the harness, abstract log)."""
     rng = rng or random.Random(0)
     alog = list(prelude)
@@ -121,7 +125,7 @@ def concretize(hist, prelude, name, proto=True, rng=None, final_probe=True):
         else:
             steps.append({"a": a})
     sched = {"name": name, "proto": proto, "log": clog, "steps": steps, "mod": [], "abs": True,
-             "twice": True, "prestore": len(prelude)}
+             "twice": True, "prestore": len(prelude), "offset": offset}
     return sched, alog
 
 
@@ -258,12 +262,12 @@ def check_conversion(conv):
             x, y = a[k], b[k]
             if x.get("err"):
                 continue            # unreadable before the migration: not the conversion's doing
-            if y.get("err") or (x.get("msg") and not y.get("msg")):
+            if y.get("err"):
                 bad.append(("conv-%s-entry-undecodable" % store, "%s entry %d cannot be decoded after the conversion to %s: %s"
                             % (store, k, conv["enc"], y.get("err"))))
                 continue
-            if (x["rafttype"], x["term"]) != (y["rafttype"], y["term"]):
-                bad.append(("conv-%s-entry-envelope-changed" % store, "%s entry %d: raft type/term %s became %s in the conversion to %s"
+            if (x["rafttype"], x["term"]) != (y["rafttype"], y["term"]) or (x.get("msg") and not y.get("msg")):
+                bad.append(("conv-%s-entry-envelope-changed" % store, "%s entry %d: raft log type/term %s became %s in the conversion to %s"
                             % (store, k, (x["rafttype"], x["term"]), (y["rafttype"], y["term"]), conv["enc"])))
                 continue
             if x.get("msg"):
@@ -414,6 +418,10 @@ def judge_all(ctx, scheds, events, prefix=""):
                     # the same predicate failing after the same action: counted, not listed again
                     ctx.add("violating_schedules_not_listed", 1)
                     break
+                if sig.startswith("conv-"):
+                    also = sorted(set(b[0] for b in bad if not b[0].startswith("conv-")))
+                    if also:
+                        what += "; in the same step: " + ", ".join(also)
                 ctx.violation(prefix + sig, "%s [schedule %s, step %d %s]" % (what, name, ev["n"], ev["ev"]),
                               {"schedule": s, "failed_step": ev["n"], "event": {k: ev.get(k) for k in ("ev", "err", "chk")},
                                "all": [b[0] for b in bad]})
@@ -689,15 +697,17 @@ class Engine:
         self.ctx.cov["schedules_replayed"] += len(scheds)
         return events
 
-    def replay_behaviours(self, behs, prelude, tag, proto_of=lambda k: k % 2 == 0, tv=True, nproc=4, limit=None):
-        """TLC behaviours -> schedules -> real code -> predicates (+ trace validation)."""
+    def replay_behaviours(self, behs, prelude, tag, proto_of=lambda k: k % 2 == 0, tv=True, nproc=4, limit=None,
+                          offset_of=lambda k: PROD_OFFSET if (k // 2) % 2 == 0 else 0):
+        """TLC behaviours -> schedules -> real code -> predicates (+ trace validation).
+        proto_of / offset_of: encoding and message offset of the k-th schedule's node."""
         ctx = self.ctx
         rng = random.Random(ctx.seed * 7919 + len(tag))
         if limit is not None and len(behs) > limit:
             behs = rng.sample(behs, limit)
         scheds = []
         for k, b in enumerate(behs):
-            s, alog = concretize(b, PRELUDES[prelude], "%s-%d" % (tag, k), proto=proto_of(k), rng=rng)
+            s, alog = concretize(b, PRELUDES[prelude], "%s-%d" % (tag, k), proto=proto_of(k), rng=rng, offset=offset_of(k))
             scheds.append(s)
             self.alogs[s["name"]] = alog
         t = time.time()
@@ -918,6 +928,7 @@ def with_migration(rng, sched, p=0.7):
     for e in sched["log"]:
         if rng.random() < 0.15:
             e["ext"] = "x%d" % e["idx"]
+    sched["offset"] = PROD_OFFSET if rng.random() < 0.5 else 0
     if sched["proto"] or rng.random() >= p:
         return sched
     steps = sched["steps"]
